@@ -380,6 +380,20 @@ def run(ctx):
             continue   # not accepted as written: nothing to round-trip
         roundtrip(ctx, dom, case, 'content')
     namespace_family(ctx, rng, 40 if quick else 1500)
+    # unknown at-rules holding brace characters as string / url content; comments and strings with characters the
+    # sheet's own encoding cannot represent (written as escapes, read back as the characters)
+    for text in ['@x "{" "}";', '@x "{" y; a{b:c}', '@x url({) b; a{b:c}', '@x url("}") b;', '@counter x { prefix: "{"; suffix: "}" } a{b:c}',
+                 '@media tv{@x "{" y; a{b:c}} d{e:f}', '@x ("{") ["}"] {"{"} a{b:c}', '@x "a{b" "}c";',
+                 '@charset "ascii"; /* gr\xfcn */ a{b:c}', '@charset "ascii"; a{/* \xfc */ b: c /* \u4e2d */ d} /*\U0001f600*/',
+                 '@charset "iso-8859-1"; /* \u4e2d\xfc */ @media tv{/* \u20ac */ a{b:"\u20ac"}}', '@charset "ascii"; a{b:"gr\xfcn"; c: url(gr\xfcn.png)} .gr\xfcn{d:e}']:
+        case = {'text': text, 'family': 'unknown-rule-braces' if text.startswith(('@x', '@counter', '@media')) else 'non-encodable'}
+        ctx.case(text)
+        try:
+            dom = parse(text)
+        except Exception as e:
+            ctx.violation('raises-parse', case, '%s: %s' % (type(e).__name__, e), KNOWN_PRED)
+            continue
+        roundtrip(ctx, dom, case, 'content')
     nreal = 0
     for f in sorted(glob.glob(os.path.join(core.REPO, 'sheets', '*.css')))[:(8 if quick else 200)]:
         data = open(f, 'rb').read()
